@@ -147,6 +147,27 @@ __CPROVER_assigns(v->n, v->d)
     v->d = nd; v->n = n;
 }
 
+/* assign(first, last) / vector(first, last): the elements of the byte range [first, last) */
+void vec_u8_assign_range(struct vec_u8 *v, const uint8_t *first, const uint8_t *last)
+__CPROVER_requires(__CPROVER_rw_ok(v, sizeof(*v)) && __CPROVER_same_object(first, last) && first <= last && (size_t)(last - first) <= VEC_MAX && (first == last || __CPROVER_r_ok(first, (size_t)(last - first))))
+__CPROVER_ensures(v->n == (size_t)(last - first) && __CPROVER_is_fresh(v->d, v->n))
+__CPROVER_ensures(g_k < v->n ==> v->d[g_k] == first[g_k])
+__CPROVER_assigns(v->n, v->d)
+{
+    size_t n = (size_t)(last - first);
+    v->d = (uint8_t *)malloc(n ? n : 1); __CPROVER_assume(v->d != 0);
+    if (n) memcpy(v->d, first, n);
+    v->n = n;
+}
+struct vec_u8 vec_u8_make_range(const uint8_t *first, const uint8_t *last)
+__CPROVER_requires(__CPROVER_same_object(first, last) && first <= last && (size_t)(last - first) <= VEC_MAX && (first == last || __CPROVER_r_ok(first, (size_t)(last - first))))
+__CPROVER_ensures(__CPROVER_return_value.n == (size_t)(last - first) && __CPROVER_is_fresh(__CPROVER_return_value.d, __CPROVER_return_value.n))
+__CPROVER_ensures(g_k < __CPROVER_return_value.n ==> __CPROVER_return_value.d[g_k] == first[g_k])
+__CPROVER_assigns()
+{
+    struct vec_u8 v; vec_u8_assign_range(&v, first, last); return v;
+}
+
 static inline void vec_u8_clear(struct vec_u8 *v) { v->n = 0; }
 
 static inline struct vec_u8 *vec_u8_assign_move(struct vec_u8 *v, struct vec_u8 *o)
